@@ -270,9 +270,15 @@ func faceInput(c faceCase, o *kit.Obs) (*region, []kit.V3, bool, error) {
 	if err != nil || !ok {
 		return nil, nil, ok, err
 	}
+	// the plane's origin is given in units of the placement (a polygon drawn in nanometres does not sit five metres
+	// from the origin of its own coordinate system: that would leave its vertices without digits)
+	lf := c.Lift
+	if sc := c.Place.Scale; sc != 0 {
+		lf.Origin = lf.Origin.Scale(sc)
+	}
 	in3 := make([]kit.V3, len(r.pts))
 	for i, p := range r.pts {
-		in3[i] = c.Lift.apply(p)
+		in3[i] = lf.apply(p)
 	}
 	n := c.Lift.Normal.Unit()
 	if math.Abs(n[0]) == 1 || math.Abs(n[1]) == 1 || math.Abs(n[2]) == 1 {
@@ -348,8 +354,16 @@ func genOFF(t *rapid.T) offCase {
 	total := 0
 	for i := 0; i < nf; i++ {
 		f := genFace(t, fmt.Sprintf("face%d", i))
+		if i > 0 && (f.Place.Scale < 0.09 || f.Place.Scale > 11 || f.Place.Off.Norm() > 12*f.Place.Scale) {
+			// faces in extreme units or far from the origin only come alone: several faces are spread along x by
+			// an absolute distance, which would cost a tiny face its digits
+			f.Place = place{Kind: "id", Scale: 1}
+		}
 		c.Faces = append(c.Faces, f)
 		total += len(f.Shape.Loops[0])
+		if i == 0 && (f.Place.Scale < 0.09 || f.Place.Scale > 11 || f.Place.Off.Norm() > 12*f.Place.Scale) {
+			break
+		}
 	}
 	ne := rapid.IntRange(0, 3).Draw(t, "nextra")
 	for i := 0; i < ne; i++ {
@@ -588,6 +602,13 @@ func checkBitmap(c bitmapCase, o *kit.Obs) error {
 }
 
 func genZ(t *rapid.T) [2]float64 {
+	if rapid.IntRange(0, 2).Draw(t, "zindependent") == 0 {
+		// two unrelated heights: z0 + (z1 - z0) need not give z1 back in floating point
+		a, b := gen.F(t, -5, 5, "za"), gen.F(t, -5, 5, "zb")
+		if math.Abs(a-b) > 0.01 {
+			return [2]float64{a, b}
+		}
+	}
 	z0 := gen.F(t, -5, 5, "z0")
 	h := gen.LogF(t, 0.01, 5, "height")
 	if rapid.IntRange(0, 3).Draw(t, "zreversed") == 0 {
